@@ -403,6 +403,9 @@ def run(ctx):
         share(ctx, "C13", ("R13.4",), "R01.13", "consistency-check obligations shared with C13", 6)
     # ---- R01.9: what a token set is still there when parse() returns - check() consults environment/default only when the
     # command line gave nothing (C03's R03.1 re-evaluated for all three kinds)
+    ctx.rule("R01.14", "parse(argc, argv) turns every argv[1..argc-1] into a token: no iteration of a token-building loop returns to the loop head without an append")
+    from .common import rule_every_argument_tokenised
+    rule_every_argument_tokenised(ctx, "R01.14")
     ctx.rule("R01.9", "a consumed token's effect is not overwritten after the loop: check() leaves command-line values alone (R03.1 re-evaluated)")
     if ctx.prop == "C01" and not getattr(ctx, "_sharing", False):
         from .common import share
@@ -595,6 +598,20 @@ def _letter_accounting(tt):
             mism = "true" if cmpn[0] == "!=" else "false"
             tgt = [to for to, lab in tt.succs(b) if lab == mism]
             raising = bool(tgt) and tt.is_noreturn(tgt[0]) and any(exc == C04.ALLOWED for _, exc, _ in C04.raise_nodes(tt, tgt[0]))
+            if tgt and not raising:
+                # the error branch may prepare its message first (collect the unknown letters in a loop): what counts is that no way leads from
+                # the mismatch edge to a normal exit, and every way out is raise<parsing_error>
+                seen_b, st_b = set(), [tgt[0]]
+                while st_b:
+                    xb = st_b.pop()
+                    if xb in seen_b:
+                        continue
+                    seen_b.add(xb)
+                    if not tt.is_noreturn(xb):
+                        st_b.extend(to for to, _ in tt.succs(xb))
+                ends = [xb for xb in seen_b if tt.is_noreturn(xb)]
+                raising = bool(ends) and tt.exit not in seen_b and not (seen_b & set(tt.return_blocks())) and b not in seen_b \
+                    and all(any(exc == C04.ALLOWED for _, exc, _ in C04.raise_nodes(tt, xb)) for xb in ends)
             dom = cfg.dominators(tt)
             covers = all(head in dom.get(rb, ()) for rb in tt.return_blocks())
             if not covers and best is None:
